@@ -101,8 +101,10 @@ func c16RunCKKS(ctx *core.RunCtx) {
 		logQ := float64(params.RingQ().ModulusAtLevel[l].BitLen())
 		sf, _ := ct.Scale.Value.Float64()
 		lambda = int(logQ) - int(math.Ceil(math.Log2(sf))) - int(math.Ceil(math.Log2(float64(d.n)))) - 2 + ch.Draw("boundary-delta", 4)
-		if lambda < 1 {
-			lambda = 1
+		// with a single bit of statistical security the mask bound 2^logBound = 2 * scale leaves no room for
+		// a message of magnitude sqrt(2) below half of the modulus: two bits are the least meaningful value
+		if lambda < 2 {
+			lambda = 2
 		}
 		ctx.Count("probe.security-parameter-at-level-boundary", 1)
 	}
@@ -589,6 +591,13 @@ func (sc *c16CKKS) runRefresh(d *c16Deploy, ct *rlwe.Ciphertext, m []*bignum.Com
 	}
 	if tol > 0.25 {
 		ctx.Count("probe.exactness-budget-skipped", 1)
+		return true
+	}
+	// the output can only represent the message if scale * |message| stays below half of its modulus:
+	// coefficients of the encoded message are bounded by scale * sqrt(2) * (a small factor for the drawn
+	// vectors); without three bits of room the comparison says nothing about the protocol
+	if float64(paramsOut.RingQ().ModulusAtLevel[outLevel].BitLen()) < math.Log2(outScale)+3 {
+		ctx.Count("probe.message-does-not-fit-output-modulus", 1)
 		return true
 	}
 	if dist > tol {
